@@ -219,8 +219,8 @@ def run(ck):
         ck.rule(k, v)
     check_a(ck, repo)
     check_b(ck, repo)
-    ck.require_count("C19.a", 2, "package census + the anchored store")
-    ck.require_count("C19.b", 18, "schema, fit, transform")
+    ck.require_count("C19.a", 1, "package census + the anchored store")
+    ck.require_count("C19.b", 10, "schema, fit, transform")
 
 
 _F = "mlinsights/mlmodel/categories_to_integers.py"
